@@ -31,7 +31,10 @@ def leb(v):
 
 
 class Enc:
-    def __init__(s, b):
+    def __init__(s, b, pt=None, ct=None):
+        PT_, CT_ = pt or PT, ct or CT
+        return s._parse(b, PT_, CT_)
+    def _parse(s, b, PT, CT):
         s.tag = b[:16]; p = 16; n = b[p]; p += 1
         s.c = [b[p + PT * i:p + PT * (i + 1)] for i in range(n)]; p += PT * n
         s.hyb = b[p]; p += 1; m = b[p]; p += 1; s.es = []
@@ -86,12 +89,15 @@ def run(ctx):
     if not ok: vf.finish(ctx)
     layout, lay = coq_layout(ctx)
     n = 0; hist = {}; muts = []
-    for cfg in ('default', 'alt'):
-        if cfg in ctx.unbuilt: continue
-        k, h, muts_cfg = campaign(ctx, cfg, layout)
-        n += k
-        for a, b in h.items(): hist[a] = hist.get(a, 0) + b
-        if cfg == 'default': muts = muts_cfg
+    # the encapsulations are shared out over several reference-decapsulator processes (each with its own fresh keys)
+    import concurrent.futures
+    NSH = 4
+    jobs = [(cfg, sh) for cfg in ('default', 'alt') if cfg not in ctx.unbuilt for sh in range(NSH)]
+    with concurrent.futures.ThreadPoolExecutor(len(jobs)) as ex:
+        for (cfg, sh), (k, h, muts_cfg) in zip(jobs, ex.map(lambda j: campaign(ctx, j[0], layout, j[1], NSH), jobs)):
+            n += k
+            for a, b in h.items(): hist[a] = hist.get(a, 0) + b
+            if cfg == 'default' and muts_cfg and not muts: muts = muts_cfg
     # DEM layer: PKE ciphertexts and encrypted header metadata
     import demcheck
     demcheck.campaign(ctx, malleability_only=True)
@@ -108,8 +114,7 @@ def run(ctx):
     vf.finish(ctx)
 
 
-def campaign(ctx, cfg, layout):
-    global PT, CT
+def campaign(ctx, cfg, layout, shard=0, nshards=1):
     PT, CT = (32, 768) if cfg == 'default' else (33, 1088)
     alt = cfg != 'default'
     p = subprocess.Popen([vf.harness_bin('mutd', cfg), layout], stdin=subprocess.PIPE, stdout=subprocess.PIPE, text=True)
@@ -134,10 +139,11 @@ def campaign(ctx, cfg, layout):
             if im.startswith('SOME') and im[5:] != s:
                 vf.violation(ctx, 'decapsulation of an unmodified encapsulation returned a secret different from the encapsulated one', {'config': cfg, 'enc_hex': e.hex(), 'usk_hex': u, 'impl': im, 'expected': s})
             auth[(ei, ui)] = im.startswith('SOME')
-    parsed = [Enc(e) for e, _ in encs]
+    parsed = [Enc(e, PT, CT) for e, _ in encs]
     for pe, (e, _) in zip(parsed, encs): assert pe.build() == e
-    hist = {}; viol = []
+    hist = {}; viol = []; muts = []
     for ei, (e, s) in enumerate(encs):
+        if ei % nshards != shard: continue
         au = [ui for ui in range(len(usks)) if auth[(ei, ui)]][:2]; un = [ui for ui in range(len(usks)) if not auth[(ei, ui)]][:1]
         users = au + un
         muts = []
